@@ -69,7 +69,7 @@ func runPlan(prop string, plan []planItem) int {
 	// scheduling point, so unsynchronised accesses to shared state become visible; smaller deviation bound
 	stmtPass := os.Getenv("VERIF_STMT") != ""
 	if stmtPass {
-		budget = 6 * time.Minute
+		budget = 10 * time.Minute
 	}
 	deadline := time.Now().Add(budget)
 	var states, transitions, traces int64
@@ -83,6 +83,11 @@ func runPlan(prop string, plan []planItem) int {
 			bound = pi.Thorough
 		}
 		if bound < 0 {
+			continue
+		}
+		if stmtPass && strings.Contains(pi.Sc.Name, "/real-store-") {
+			// (the store's files at statement granularity cost ~600-900 points per execution; these scenarios are about the
+			// store's synchronisation operations and run in the first pass only)
 			continue
 		}
 		if stmtPass && prop != "C08" {
